@@ -197,6 +197,28 @@ func c18Sites(c *Ctx) []panicSite {
 					s := mk("must-call", in, lastSeg(shortID(id)))
 					s.Status, s.Why = "unproved", "callee panics on invalid input"
 				}
+				// dependency functions that panic on malformed input-derived arguments (read in their source)
+				for _, dp := range c18DepPanics {
+					if id != dp.callee {
+						continue
+					}
+					s := mk("dep-panic", in, lastSeg(id))
+					switch {
+					case c18UnderRecover(c, f, map[*ssa.Function]bool{}):
+						s.Status, s.Why = "proved", "executed under a deferred recover() on every call path from the input handlers"
+					case dp.minLenArg >= 0 && provedMinLen(f, x.Common().Args[dp.minLenArg], dp.minLenOf, in):
+						s.Status, s.Why = "proved", "the argument's length is tested against "+dp.minLenOf+" before the call"
+					default:
+						s.Status, s.Why = "unproved", id+" "+dp.why+"; the call is not made under a deferred recover() and the argument comes from the operation being processed"
+					}
+				}
+				if os.Getenv("DCVERIF_DEBUG_DEPS") != "" && strings.Contains(id, "corestario/kyber") {
+					var as []string
+					for _, a := range x.Common().Args {
+						as = append(as, trimPath(npath(a)))
+					}
+					println("DEPCALL", shortFn(f), id, strings.Join(as, " ; "))
+				}
 				// library calls that panic when an argument has the wrong length
 				for _, pc := range c18LenPreconds {
 					if id == pc.callee && pc.arg < len(x.Common().Args) {
@@ -1226,4 +1248,125 @@ func provedByValidate(c *Ctx, f *ssa.Function, v ssa.Value, at ssa.Instruction) 
 		}
 	}
 	return false
+}
+
+
+// c18DepPanics: dependency entry points that are handed input-derived data by the input handlers and panic on some
+// malformed values (established by reading kyber v1.6.0 and crypto/cipher):
+var c18DepPanics = []struct {
+	callee    string
+	why       string
+	minLenArg int    // argument whose minimum length is the precondition, or -1
+	minLenOf  string // suffix of the access path of the bound it must be compared with
+}{
+	{"github.com/corestario/kyber/encrypt/ecies.Decrypt", "slices the ciphertext at group.PointLen() without checking its length", 2, ".PointLen()"},
+	{"github.com/corestario/kyber/share/dkg/pedersen.(DistKeyGenerator).ProcessDeal", "passes the deal's nonce to cipher.AEAD.Open (panics unless it has 12 bytes) and dereferences the SecShare of the decrypted deal (nil when the encrypted message omits it)", -1, ""},
+	{"github.com/corestario/kyber/share/vss/pedersen.(Verifier).DecryptDeal", "passes the deal's nonce to cipher.AEAD.Open (panics unless it has 12 bytes)", -1, ""},
+}
+
+// hasRecoverBarrier: f registers, before anything else can panic, a deferred function that calls recover().
+func hasRecoverBarrier(f *ssa.Function) bool {
+	if len(f.Blocks) == 0 {
+		return false
+	}
+	for _, in := range f.Blocks[0].Instrs {
+		d, ok := in.(*ssa.Defer)
+		if !ok {
+			// only address computations, allocations and plain stores may precede the defer
+			switch in.(type) {
+			case *ssa.Alloc, *ssa.FieldAddr, *ssa.Store, *ssa.UnOp, *ssa.MakeClosure, *ssa.DebugRef:
+				continue
+			}
+			return false
+		}
+		var callee *ssa.Function
+		switch v := d.Call.Value.(type) {
+		case *ssa.MakeClosure:
+			callee, _ = v.Fn.(*ssa.Function)
+		case *ssa.Function:
+			callee = v
+		}
+		if callee == nil {
+			continue
+		}
+		found := false
+		ssax.Instrs(callee, func(ci ssa.Instruction) {
+			if call, ok := ci.(*ssa.Call); ok {
+				if b, ok := call.Common().Value.(*ssa.Builtin); ok && b.Name() == "recover" {
+					found = true
+				}
+			}
+		})
+		if found {
+			return true
+		}
+	}
+	return false
+}
+
+// c18UnderRecover: f has a recover barrier, or every caller of f inside the input-reachable code has one (recursively).
+func c18UnderRecover(c *Ctx, f *ssa.Function, busy map[*ssa.Function]bool) bool {
+	if hasRecoverBarrier(f) {
+		return true
+	}
+	if busy[f] {
+		return false
+	}
+	busy[f] = true
+	defer delete(busy, f)
+	inScope := map[*ssa.Function]bool{}
+	for _, g := range c18Scope(c) {
+		inScope[g] = true
+	}
+	n := c.P.CallGraph().Nodes[f]
+	if n == nil {
+		return false
+	}
+	callers := 0
+	for _, e := range n.In {
+		g := e.Caller.Func
+		if !inScope[g] {
+			continue
+		}
+		callers++
+		if !c18UnderRecover(c, g, busy) {
+			return false
+		}
+	}
+	return callers > 0
+}
+
+// provedMinLen: the use lies behind the failing edge of a test `len(v) < <bound>` (or the holding edge of `>=`), where
+// the bound's access path ends with boundSuffix.
+func provedMinLen(f *ssa.Function, v ssa.Value, boundSuffix string, at ssa.Instruction) bool {
+	vp := npath(v)
+	var edges []ssax.Edge
+	for _, cd := range ssax.Conds(f) {
+		var small, big ssa.Value
+		okSucc := -1
+		switch cd.Op {
+		case token.LSS: // small < big holds on the true edge
+			small, big = cd.X, cd.Y
+		case token.GTR:
+			small, big = cd.Y, cd.X
+		case token.GEQ: // X >= Y: len on the X side is fine on the true edge
+			if la := lenArg(cd.X); la != nil && npath(la) == vp && strings.HasSuffix(ssax.Path(cd.Y), boundSuffix) {
+				edges = append(edges, ssax.Edge{From: cd.If.Block(), Succ: 0})
+			}
+			continue
+		case token.LEQ:
+			if la := lenArg(cd.Y); la != nil && npath(la) == vp && strings.HasSuffix(ssax.Path(cd.X), boundSuffix) {
+				edges = append(edges, ssax.Edge{From: cd.If.Block(), Succ: 0})
+			}
+			continue
+		default:
+			continue
+		}
+		_ = okSucc
+		// len(v) < bound on the true edge: the false edge is the safe one
+		if la := lenArg(small); la != nil && npath(la) == vp && strings.HasSuffix(ssax.Path(big), boundSuffix) {
+			edges = append(edges, ssax.Edge{From: cd.If.Block(), Succ: 1})
+		}
+	}
+	return len(edges) > 0 && !ssax.ReachableAvoiding(f, at, edges, nil)
 }
